@@ -23,6 +23,9 @@ def ensure_path():
         sys.path.insert(0, VERIF)
 
 
+SKIPPED = []
+
+
 class JobResult(dict):
     """paths, decisions, obligations, discharged, cex[], inconclusive[], witnesses[], samples[], solver_s,
     checks, notes[], trunc[]"""
@@ -184,6 +187,8 @@ def main(pid, tier):
             counters[k] = counters.get(k, 0) + v
     for s in pending:
         inconclusive.append(f"job {str(s)[:80]} did not finish inside the wall budget")
+    if SKIPPED:
+        agg['notes'].append(f"fail-fast: {SKIPPED[0]} jobs not run after the first counterexample")
     # hook for cross-job obligations
     if hasattr(mod, "finalize"):
         fin = mod.finalize(tier, seed, results)
